@@ -7,9 +7,9 @@ import vlib
 
 LEVEL = "model_checking"
 
-RULE = ("impl->spec: seeded random training sets (4..120 rows, 1..6 integer features: small-integer with many "
-        "repeats / constant columns / pairwise-distinct columns; 2..4 classes with arbitrary label values incl. "
-        "single-row classes, or dyadic targets), n_trees 1..30, m in {None,1..p}, max_depth {None,1..8}, "
+RULE = ("impl->spec: seeded random training sets (4..120 rows, 1..6 features, integers or sixteenths: small values "
+        "with many repeats / constant columns / pairwise-distinct columns; 2..4 classes with arbitrary label values "
+        "incl. single-row classes, or integer / dyadic / arbitrary real targets), n_trees 1..30, m in {None,1..p}, max_depth {None,1..8}, "
         "min_samples_leaf 1..5, min_samples_split 0..8, 3 criteria, keep_samples on/off, seeds incl. 0, 1, 2^64-1; "
         "every setting is fitted with two seeds, twice each, interleaved (A B A B), the earliest keys again at the "
         "end of the session; first fits are observed completely (serde dump: trees[], samples[]; every member "
@@ -127,7 +127,7 @@ def run(ctx):
     # ---- measurement for the evidence file and vacuity guards on the generator
     nt_fit = set()
     tot = dict(nonunanimous_rows=0, top_tie_rows=0, partially_oob_rows=0, rows_without_oob_tree=0,
-               single_row_class_fits=0, oob_unavailable_fits=0)
+               single_row_class_fits=0, oob_unavailable_fits=0, real_target_fits=0, fractional_feature_fits=0)
     digests_by_base = {}
     sample_tie = sample_big = None
     for e in events:
@@ -148,12 +148,14 @@ def run(ctx):
             tot["single_row_class_fits"] += 1
         if not o["keep"]:
             tot["oob_unavailable_fits"] += 1
+        tot["real_target_fits"] += o["ySlack"]
+        tot["fractional_feature_fits"] += 1 if e["in"]["xDen"] != 1 else 0
         if nonun or part:
             nt_fit.add(e["key"])
         if tie and sample_tie is None and o["nAll"] <= 16 and o["trees"] <= 6:
             sample_tie = e
         if sample_big is None and o["nTrain"] >= 60 and o["trees"] >= 8:
-            sample_big = {"ev": "ForestFit", "key": e["key"], "digest": e["digest"], "in": {k: v for k, v in e["in"].items() if k not in ("X", "Xq", "y")},
+            sample_big = {"ev": "ForestFit", "key": e["key"], "digest": e["digest"], "in": {k: v for k, v in e["in"].items() if k not in ("X", "Xq", "y", "yHex")},
                           "obs": "(%d x %d per-tree predictions, %d x %d membership bits elided)" % (o["trees"], o["nAll"], o["trees"], o["nTrain"])}
     seed_sensitive = sum(1 for b, ds in digests_by_base.items() if len(ds) > 1)
     nt_asm = 0
@@ -164,8 +166,7 @@ def run(ctx):
         nonun, tie, part, none = row_stats(o)
         if nonun or part:
             nt_asm += 1
-    for name in ("nonunanimous_rows", "top_tie_rows", "partially_oob_rows", "rows_without_oob_tree",
-                 "single_row_class_fits", "oob_unavailable_fits"):
+    for name in sorted(tot):
         if tot[name] == 0:
             raise vlib.ToolError("vacuous run: the generated fits contain no case of %s" % name)
     if seed_sensitive == 0:
@@ -178,7 +179,7 @@ def run(ctx):
     ctx.extra["assembled_forests"] = {"replayed": len(obs_events), "nontrivial": nt_asm, "exhaustive_over_model_scope": True}
     ctx.extra["not_covered"] = ["'all seeds (u64)' is sampled (edge seeds 0, 1, 2^64-1 always included), not enumerated",
                                 "regression values are compared in fixed point 2^-16: deviations below ~2^-15 (a few ulps) are not decided",
-                                "real-valued targets are represented by dyadic targets (multiples of 1/8, |y| <= 200); f32 forests are not exercised",
+                                "for arbitrary real targets the range clause grants one fixed-point unit (2^-16); |y| <= 200; f32 forests are not exercised",
                                 "which rows a member tree was really grown from is observable only through InBagFit (unlimited trees on "
                                 "distinct-valued features reproduce their in-bag rows)"]
     samples = []
